@@ -111,7 +111,11 @@ func ClassifyRunErr(err error) string {
 		return ClsRegexp
 	case has("index out of range"), has("slice index out of"), has("slice bounds out of"), has("out of bounds"):
 		return ClsIndex
-	case has("nil pointer"), has("using nil *"), has("from <nil>"), has("on zero Value"), has("of <nil>"), has("(type <nil>)"):
+	case has("<nil>"), has("Call using interface {} as type"), has("cannot use interface {} as type"), has("is nil, not"), has("nil pointer"), has("using nil *"), has("from <nil>"), has("on zero Value"), has("of <nil>"), has("(type <nil>)"):
+		return ClsNil
+	case has("cannot slice"):
+		// slice() reports this for a nil operand (the result of a nil-safe
+		// access); statically typed operands are never of another kind
 		return ClsNil
 	case has("cannot fetch") && has("from *"):
 		// fetch through a nil pointer ends here; fetch from a non-nil pointer to
